@@ -533,8 +533,16 @@ def run_case(sh, s, d, case):
                     if name not in c.root() and len(by_oid[oid_of[name]]) > 1:
                         committed[name] = None        # the undone transaction had attached the blob under this key
                     if committed.get(name) is None and name in c.root():
-                        with c.root()[name].open('r') as f:
-                            committed[name] = f.read()
+                        try:
+                            with c.root()[name].open('r') as f:
+                                committed[name] = f.read()
+                        except POSKeyError:
+                            # undo works record by record: undoing the transaction that removed the reference, after the
+                            # blob's creation was undone too, leaves a reference to an object that does not exist (an
+                            # accepted limitation of undo, also met under C07).  The history ends here without a verdict.
+                            sh.count('histories_ended_by_an_undo_that_left_a_dangling_reference')
+                            tm.abort()
+                            return None
                         content_at[(oid_of[name], tid)] = committed[name]
                         if name not in names:
                             names.append(name)
